@@ -49,6 +49,12 @@ def _pool():
     for k in range(3):
         pool.append(gen(k))
         pool.append(xml(k))
+    # operands that have a real position but no source (NO_SOURCE): they are not NoOrigin
+    from pyoak.origin import NO_SOURCE
+
+    srcs.append(NO_SOURCE)
+    pool.append(({"kind": "code", "src": 3, "range": (2, 4), "pos_fqn": "2-4", "source_object": "NO_SOURCE"}, CodeOrigin(NO_SOURCE, get_code_range(2, 1, 2, 4, 1, 4))))
+    pool.append(({"kind": "xml", "src": 3, "pos_fqn": "/n/s", "source_object": "NO_SOURCE"}, XMLFileOrigin(NO_SOURCE, XMLPath("/n/s"))))
     # operands whose source is equal to srcs[0] but another object (one source object per token)
     twin0 = MemoryTextSource(_raw=TEXTS[0], source_uri="S0")
     pool.append(({"kind": "code", "src": 0, "range": (5, 7), "pos_fqn": "5-7", "source_object": "equal twin of S0"}, CodeOrigin(twin0, get_code_range(5, 1, 5, 7, 1, 7))))
@@ -104,11 +110,11 @@ def _expect_merge(e, srcs, ops, got, scenario, what):
         # the common source: equal to every member's source (members may hold equal but distinct objects)
         if type(got.source) is SourceSet or got.source != srcs[ksrc[0]]:
             bad("multi-origin-source-not-common-source")
-        src_fqn = f"S{ksrc[0]}"
+        src_fqn = srcs[ksrc[0]].fqn
     else:
         if type(got.source) is not SourceSet or len(got.source.sources) != len(ksrc) or any(s != srcs[k] for s, k in zip(got.source.sources, ksrc)):
             bad("multi-origin-source-set-wrong", expected_sources=ksrc)
-        src_fqn = "SourceSet(" + "||".join(f"S{k}" for k in ksrc) + ")"
+        src_fqn = "SourceSet(" + "||".join(srcs[k].fqn for k in ksrc) + ")"
     want_fqn = src_fqn + "::" + "PositionSet(" + "||".join(m[0]["pos_fqn"] for m in members) + ")"
     if got.fqn != want_fqn:
         bad("multi-origin-fqn-wrong", expected_fqn=want_fqn, got_fqn=got.fqn)
@@ -126,7 +132,7 @@ def _expect_add(e, srcs, a, b, got, scenario, what):
             ok = (
                 type(got) is CodeOrigin and got.source == srcs[da["src"]]
                 and got.position.start.index == lo and got.position.end.index == hi
-                and got.get_raw() == TEXTS[da["src"]][lo:hi]
+                and got.get_raw() == (TEXTS[da["src"]][lo:hi] if da["src"] < len(TEXTS) else None)
             )
             if not ok:
                 scenario.update(op=what, got=repr(got)[:300], expected_range=(lo, hi))
@@ -214,7 +220,7 @@ def replay_obligation(payload):
 
 def spec(tier: str, seed: int) -> Spec:
     fams = []
-    npool = 23
+    npool = 25
     for n in (1, 2):
         fams.append(Family(f"tuples-of-{n}", make_harness(n, None), variables="selectors: operand kinds / sources / ranges, function"))
     for f in range(npool):
